@@ -28,7 +28,9 @@ CONSTANTS
     Deps,       \* Deps[n] : set of names a derived attribute n is computed from
     NDim,       \* dimensionality (pixel attributes p1..pNDim, world attributes w1..wNDim)
     Coords,     \* coordinate kinds, e.g. {"none", "identity", "affine"}
-    Labels      \* dataset labels
+    Labels,     \* dataset labels
+    DupIds,     \* identities of attributes added under a label that is already in use
+    DupOf       \* names whose label is reused by AddDup
 
 VARIABLES
     comps,    \* sequence of [n, k]
@@ -37,17 +39,28 @@ VARIABLES
     label,
     hub,      \* BOOLEAN: registered to a hub (inside a collection)
     renamed,  \* set of names that were re-identified / renamed (each at most once)
+    labels,   \* name -> display label (several attributes may share a label)
     ann,
     act
 
-svars == <<comps, coords, shape, label, hub, renamed>>
+svars == <<comps, coords, shape, label, hub, renamed, labels>>
 vars == <<svars, ann, act>>
 
 Range(s) == {s[i] : i \in DOMAIN s}
 Names == {c.n : c \in Range(comps)}
+AllNames == Main \cup Derived \cup DupIds \cup {m \o "2" : m \in Main} \cup {"n1"} \cup {"p" \o ToString(i) : i \in 1..NDim} \cup {"w" \o ToString(i) : i \in 1..NDim}
 C(n, k) == [n |-> n, k |-> k]
 Pix == [i \in 1..NDim |-> C("p" \o ToString(i), "pixel")]
 Wld == [i \in 1..NDim |-> C("w" \o ToString(i), "world")]
+
+(* lookup by name: the unique match among stored attributes, else among derived, else among coordinate
+   attributes; nothing when the first class that has a match has several *)
+LabelsInUse == {labels[n] : n \in Names}
+Matches(l, k) == {c.n : c \in {x \in Range(comps) : x.k \in k /\ labels[x.n] = l}}
+Lookup(l) == IF Matches(l, {"main"}) # {} THEN (IF Cardinality(Matches(l, {"main"})) = 1 THEN CHOOSE n \in Matches(l, {"main"}) : TRUE ELSE "none")
+             ELSE IF Matches(l, {"derived"}) # {} THEN (IF Cardinality(Matches(l, {"derived"})) = 1 THEN CHOOSE n \in Matches(l, {"derived"}) : TRUE ELSE "none")
+             ELSE IF Matches(l, {"pixel", "world"}) # {} THEN (IF Cardinality(Matches(l, {"pixel", "world"})) = 1 THEN CHOOSE n \in Matches(l, {"pixel", "world"}) : TRUE ELSE "none")
+             ELSE "none"
 
 (* everything that (transitively) depends on name n, among the present derived attributes *)
 RECURSIVE Dependents(_, _)
@@ -70,6 +83,7 @@ Init ==
     /\ label = "L1"
     /\ hub = FALSE
     /\ renamed = {}
+    /\ labels = [n \in AllNames |-> n]
     /\ ann = Quiet
     /\ act = A("Init", "-", "-")
 
@@ -78,7 +92,7 @@ Attach ==
     /\ hub' = TRUE
     /\ ann' = Ann({}, {}, FALSE, FALSE)
     /\ act' = A("Attach", "-", "-")
-    /\ UNCHANGED <<comps, coords, shape, label, renamed>>
+    /\ UNCHANGED <<comps, coords, shape, label, renamed, labels>>
 
 AddMain(n) ==
     /\ n \in Main \ Names
@@ -86,6 +100,7 @@ AddMain(n) ==
     /\ ann' = Ann({<<"add", n>>}, {"ComponentsChanged"}, FALSE, FALSE)
     /\ act' = A("AddMain", n, "-")
     /\ UNCHANGED <<coords, shape, label, hub, renamed>>
+    /\ labels' = [labels EXCEPT ![n] = n]
 
 AddMainBadShape(n) ==
     /\ n \in Main \ Names
@@ -107,13 +122,14 @@ AddDerived(n) ==
     /\ ann' = Ann({<<"add", n>>}, {"ComponentsChanged"}, FALSE, FALSE)
     /\ act' = A("AddDerived", n, "-")
     /\ UNCHANGED <<coords, shape, label, hub, renamed>>
+    /\ labels' = [labels EXCEPT ![n] = n]
 
 Remove(n) ==
-    /\ n \in Names \cap (Main \cup Derived)
+    /\ n \in Names \cap (Main \cup Derived \cup DupIds)
     /\ comps' = SelectSeq(comps, LAMBDA c : c.n \notin Closure(n))
     /\ ann' = Ann({<<"remove", m>> : m \in Closure(n)}, {"ComponentsChanged"}, FALSE, FALSE)
     /\ act' = A("Remove", n, "-")
-    /\ UNCHANGED <<coords, shape, label, hub, renamed>>
+    /\ UNCHANGED <<coords, shape, label, hub, renamed, labels>>
 
 RemoveAbsent(n) ==
     /\ n \in (Main \cup Derived) \ Names
@@ -130,7 +146,7 @@ Reorder(how) ==
          /\ comps' = new
          /\ ann' = IF new = comps THEN Quiet ELSE Ann({<<"reorder", "-">>}, {}, FALSE, FALSE)
     /\ act' = A("Reorder", how, "-")
-    /\ UNCHANGED <<coords, shape, label, hub, renamed>>
+    /\ UNCHANGED <<coords, shape, label, hub, renamed, labels>>
 
 ReorderSame ==
     /\ ann' = Quiet
@@ -153,7 +169,7 @@ UpdateId(n) ==
     /\ renamed' = renamed \cup {n, n \o "2"}
     /\ ann' = Ann({<<"replaced", n>>}, {"ComponentsChanged"}, FALSE, FALSE)
     /\ act' = A("UpdateId", n, n \o "2")
-    /\ UNCHANGED <<coords, shape, label, hub>>
+    /\ UNCHANGED <<coords, shape, label, hub, labels>>
 
 UpdateIdAbsent(n) ==
     /\ n \in Main \ Names
@@ -163,13 +179,22 @@ UpdateIdAbsent(n) ==
 
 Rename(n) ==
     /\ n \in Names \cap Main
-    /\ ~HasDependents(n)
     /\ n \notin renamed
-    /\ comps' = [i \in DOMAIN comps |-> IF comps[i].n = n THEN C(n \o "r", "main") ELSE comps[i]]
-    /\ renamed' = renamed \cup {n, n \o "r"}
-    /\ ann' = Ann({<<"rename", n \o "r">>}, {}, FALSE, FALSE)
+    /\ labels' = [labels EXCEPT ![n] = n \o "r"]
+    /\ renamed' = renamed \cup {n}
+    /\ ann' = Ann({<<"rename", n>>}, {}, FALSE, FALSE)
     /\ act' = A("Rename", n, n \o "r")
-    /\ UNCHANGED <<coords, shape, label, hub>>
+    /\ UNCHANGED <<comps, coords, shape, label, hub>>
+
+(* a new stored attribute under a label that is already in use (allowed: identifiers, not labels, are unique) *)
+AddDup(d, of) ==
+    /\ d \in DupIds \ Names
+    /\ of \in Names
+    /\ comps' = Append(comps, C(d, "main"))
+    /\ labels' = [labels EXCEPT ![d] = labels[of]]
+    /\ ann' = Ann({<<"add", d>>}, {"ComponentsChanged"}, FALSE, FALSE)
+    /\ act' = A("AddDup", d, of)
+    /\ UNCHANGED <<coords, shape, label, hub, renamed>>
 
 UpdateValues(n) ==
     /\ n \in Names
@@ -196,23 +221,26 @@ DerivedNow == Names \cap Derived
 NoDerived(s) == SelectSeq(s, LAMBDA c : c.k # "derived")
 
 UpdateFromSame ==
+    /\ Cardinality(LabelsInUse) = Cardinality(Names)      \* update_values_from_data refuses non-unique labels
     /\ Names \cap (Main \cup {"n1"}) # {}        \* the other dataset has at least one stored attribute
     /\ comps' = NoDerived(comps)
     /\ ann' = Ann({<<"remove", x>> : x \in DerivedNow},
                   {"NumericalDataChanged"} \cup (IF DerivedNow = {} THEN {} ELSE {"ComponentsChanged"}), FALSE, FALSE)
     /\ act' = A("UpdateFrom", "same", "-")
-    /\ UNCHANGED <<coords, shape, label, hub, renamed>>
+    /\ UNCHANGED <<coords, shape, label, hub, renamed, labels>>
 
 UpdateFromNewShape ==
+    /\ Cardinality(LabelsInUse) = Cardinality(Names)      \* update_values_from_data refuses non-unique labels
     /\ Names \cap (Main \cup {"n1"}) # {}
     /\ shape' = OtherShape(shape)
     /\ comps' = NoDerived(comps)
     /\ ann' = Ann({<<"remove", x>> : x \in DerivedNow},
                   {"NumericalDataChanged"} \cup (IF DerivedNow = {} THEN {} ELSE {"ComponentsChanged"}), FALSE, FALSE)
     /\ act' = A("UpdateFrom", "newshape", "-")
-    /\ UNCHANGED <<coords, label, hub, renamed>>
+    /\ UNCHANGED <<coords, label, hub, renamed, labels>>
 
 UpdateFromDrop(m) ==
+    /\ Cardinality(LabelsInUse) = Cardinality(Names)      \* update_values_from_data refuses non-unique labels
     /\ m \in Names \cap Main
     /\ Cardinality(Names \cap Main) >= 2
     /\ "n1" \notin Names
@@ -220,7 +248,7 @@ UpdateFromDrop(m) ==
     /\ ann' = Ann({<<"remove", x>> : x \in DerivedNow \cup {m}} \cup {<<"add", "n1">>},
                   {"ComponentsChanged", "NumericalDataChanged"}, FALSE, FALSE)
     /\ act' = A("UpdateFrom", "drop", m)
-    /\ UNCHANGED <<coords, shape, label, hub, renamed>>
+    /\ UNCHANGED <<coords, shape, label, hub, renamed, labels>>
 
 (* new coordinates: the world attributes are replaced (the new ones are listed last) *)
 SetCoords(k) ==
@@ -234,22 +262,24 @@ SetCoords(k) ==
                             {"ComponentsChanged"}, FALSE, FALSE)
     /\ coords' = k
     /\ act' = A("SetCoords", k, "-")
-    /\ UNCHANGED <<shape, label, hub, renamed>>
+    /\ UNCHANGED <<shape, label, hub, renamed, labels>>
 
 SetLabel(l) ==
     /\ l \in Labels
     /\ label' = l
     /\ ann' = IF l = label THEN Quiet ELSE Ann({}, {"DataUpdate"}, FALSE, FALSE)
     /\ act' = A("SetLabel", l, "-")
-    /\ UNCHANGED <<comps, coords, shape, hub, renamed>>
+    /\ UNCHANGED <<comps, coords, shape, hub, renamed, labels>>
 
 Next ==
     \/ Attach
     \/ \E n \in Main : AddMain(n) \/ AddMainBadShape(n) \/ ReAddValues(n) \/ UpdateId(n) \/ UpdateIdAbsent(n)
                           \/ Rename(n) \/ UpdateFromDrop(n)
     \/ \E n \in Derived : AddDerived(n)
-    \/ \E n \in Main \cup Derived : Remove(n) \/ RemoveAbsent(n)
-    \/ \E n \in Main \cup {m \o "2" : m \in Main} \cup {m \o "r" : m \in Main} : UpdateValues(n) \/ UpdateValuesBadShape(n)
+    \/ \E d \in DupIds, of \in DupOf : AddDup(d, of)
+    \/ \E n \in Main \cup Derived \cup DupIds : Remove(n)
+    \/ \E n \in Main \cup Derived : RemoveAbsent(n)
+    \/ \E n \in Main \cup {m \o "2" : m \in Main} : UpdateValues(n) \/ UpdateValuesBadShape(n)
     \/ \E h \in {"rotate", "reverse"} : Reorder(h)
     \/ ReorderSame
     \/ \E h \in {"short", "foreign"} : ReorderInvalid(h)
